@@ -110,5 +110,33 @@ PROPS["C01"] = dict(
     assumptions=["the specification text in doc/*.tex is the authority; vspec.h is a faithful transcription of it"],
 )
 
+PROPS["C17"] = dict(
+    engine="rc", engine_name="rc-tape", sources=["props/c17.cpp"], level="exploration", design_ref="3.18", tape_scale=6,
+    quick=dict(cases=500), thorough=dict(cases=10000),
+    technique="property-based testing (rapidcheck tapes): twin vorbisfile handles with identical history, one read through ov_read and one through ov_read_float; exact conversion oracle (scale, round to nearest, clip, offset, byte order, interleave)",
+    level_text="Generated chains (encoder links and synthetic links with decoded values from 1e-6 to beyond 1e9, 1..255 channels, 64..4096 blocks) and histories of ov_read calls in all eight (word, signed, endian) formats with buffer lengths "
+               "0..65000 (incl. smaller than a frame and not a multiple of a frame), seeks, half rate; every byte returned is compared with the conversion of the twin handle's float sample, the return value must be whole frames <= length, "
+               "the position must advance by the frames returned, bytes beyond the return value must be untouched, a buffer below one frame or a non-positive word size must give OV_EINVAL without writing or moving.",
+    level_note="Trusted: ov_read_float on the twin handle as the float reference (itself checked bit-exactly against packet-level decode by C07/C10). At an exact .5 tie either neighbour is accepted; NaN samples are skipped.",
+    rule="case = chain + history of ov_read calls (format, length), seeks and refused calls; non-trivial = a read whose frames contain both clipped and unclipped samples, or more than 2 channels; distinct by hash of (chain, history)",
+    require_labels=["read with clipped and unclipped samples", "more than 2 channels", "buffer smaller than one frame", "non-positive word size", "format word=1 signed=0 bigendian=0", "format word=2 signed=1 bigendian=1", "format word=2 signed=0 bigendian=1", "half rate", "synthetic (vgen) link"],
+    assumptions=["system libogg 1.3.5 is correct"],
+)
+
+PROPS["C19"] = dict(
+    engine="rc", engine_name="rc-tape", sources=["props/c19.cpp"], level="exploration", design_ref="3.20", tape_scale=6,
+    quick=dict(cases=500), thorough=dict(cases=10000),
+    technique="property-based testing (rapidcheck tapes): twin vorbisfile handles with identical history, lapped seek on one and plain seek on the other; bit-exact comparison beyond the first half short block, cross-fade formula with the reference decode inside it",
+    level_text="Generated chains (encoder and synthetic links, differing channel counts, rates and short-block sizes incl. 64) and histories; each of the five lapped seeks (and ov_crosslap with a third handle) is run on handle A and the plain "
+               "counterpart on twin B: failure parity, OV_EOF only when nothing follows the target or the handle had no decode state at end of stream, equal landing position, bit-identical audio from one half short block on, and inside it "
+               "A = new*w^2 + old*(1-w^2) with old taken from the packet-level reference decode at the old position and w from the specification's window formula.",
+    level_note="Trusted: packet-level decode as ground truth for the old audio; when fewer than half a short block remains in the old link the lap buffer comes from the decoder's overlap half, which the reference does not contain: "
+               "those samples are only required to be finite (counted). After ov_crosslap the first handle is not used again.",
+    rule="case = chain + history (plain reads/seeks on both handles, then a lapped call); non-trivial = lapped call succeeded with a fully predicted cross-fade region and landed in a different link than the old position; distinct by hash of (chain, history)",
+    require_labels=["op ov_pcm_seek_lap", "op ov_pcm_seek_page_lap", "op ov_time_seek_lap", "op ov_time_seek_page_lap", "op ov_raw_seek_lap", "op ov_crosslap", "cross-fade formula checked", "old position near a link end", "old position at end of stream",
+                    "lap across links with different channels or short block", "half rate", "link with 64-sample short blocks", "out-of-range target"],
+    assumptions=["system libogg 1.3.5 is correct"],
+)
+
 NOT_APPLICABLE = {}
 HOOK_COMMITS = []
